@@ -657,7 +657,7 @@ pub fn gen_program(ch: &mut Choices, curve: Curve, cfg: &GenCfg) -> Program {
                 let mut right = gen_lc(ch, f, cfg.max_terms.saturating_sub(1).max(1));
                 // now and then the two operands are related: the same expression (a square), or the
                 // same variables in the same order with other coefficients
-                match ch.weighted(&[226, 14, 16]) {
+                match ch.weighted(&[196, 34, 26]) {
                     1 => right = left.clone(),
                     2 => right = left.iter().map(|(v, _)| (*v, gen_sc(ch, f, true))).collect(),
                     _ => {}
